@@ -201,6 +201,11 @@ func (c15) Execute(sc *engine.Scenario) *engine.Result {
 	}
 	want := s.Compose()
 	res.Probe("frames_compared")
+	{
+		dg := engine.NewDigest()
+		dg.Bytes(last)
+		res.Digest = uint64(dg)
+	}
 	var shadeRGB [4][4]uint8
 	var have [4]bool
 	for y := 0; y < 144 && res.Violation == nil; y++ {
